@@ -44,6 +44,7 @@ class Engine:
         self.overrides = {}  # (module, qualname) -> callable(engine, *args, **kw)
         self.attr_models = {}  # (type, attr) hooks registered by models
         self.axioms = []
+        self._axiom_ids = {}
         self.guards = []
         self.bounds = {}  # z3 term id -> (term, bits)
         self.touched = set()  # qualified names of real functions interpreted
@@ -61,12 +62,15 @@ class Engine:
     def load(self, modname):
         if modname in self.modules:
             return self.modules[modname]
-        path = os.path.join(REPO, modname.replace(".", "/") + ".py")
+        real = importlib.import_module(modname)
+        if modname.startswith("py7zr"):
+            path = os.path.join(REPO, modname.replace(".", "/") + ".py")
+            if os.path.realpath(inspect.getsourcefile(real)) != os.path.realpath(path):
+                raise Inconclusive("imported %s is not the file under REPO" % modname)
+        else:
+            path = inspect.getsourcefile(real)  # reference models living in /verif (e.g. vf.ref7z)
         src = open(path).read()
         tree = ast.parse(src)
-        real = importlib.import_module(modname)
-        if os.path.realpath(inspect.getsourcefile(real)) != os.path.realpath(path):
-            raise Inconclusive("imported %s is not the file under REPO" % modname)
         m = dict(tree=tree, real=real, funcs={}, classes={}, src=src)
         self.modules[modname] = m
         for n in tree.body:
@@ -140,6 +144,12 @@ class Engine:
         self.solver_time += time.time() - t
         return r, m
 
+    def add_axiom(self, t):
+        k = t.get_id()
+        if k not in self._axiom_ids:
+            self._axiom_ids[k] = t
+            self.axioms.append(t)
+
     def assume(self, cond):
         if isinstance(cond, bool):
             if not cond:
@@ -189,7 +199,7 @@ class Engine:
         """fresh symbolic integer with 0 <= x < 2**bits (added to the path condition by the caller via assume)"""
         if self.intmode == "bv":
             v = z3.BitVec(name, self.W)
-            self.bounds[v.get_id()] = (v, bits)
+            self.bounds[v.get_id()] = (v, (1 << bits) - 1)
             return v
         return z3.Int(name)
 
@@ -209,25 +219,30 @@ class Engine:
             return z3.BitVecVal(x, self.W)
         return z3.IntVal(x)
 
-    def bits(self, x):
+    def mag(self, x):
+        """upper bound of |x| (python int); unknown terms count as full width"""
         if not is_sym(x):
-            return int(x).bit_length()
+            return abs(int(x))
         if z3.is_bool(x):
             return 1
         b = self.bounds.get(x.get_id())
         if b is not None:
             return b[1]
         if z3.is_bv_value(x):
-            v = x.as_signed_long()
-            return abs(v).bit_length()
-        return self.W
+            return abs(x.as_signed_long())
+        return (1 << self.W) - 1
 
-    def _rec(self, term, bits):
+    def bits(self, x):
+        return self.mag(x).bit_length()
+
+    def _rec(self, term, bits=None, hi=None):
         if self.intmode == "bv":
-            if bits >= self.W - 1:
-                raise Inconclusive("integer may exceed BV width (%d bits needed)" % bits)
+            if hi is None:
+                hi = (1 << bits) - 1
+            if hi >= (1 << (self.W - 1)):
+                raise Inconclusive("integer may exceed BV width (magnitude up to 2^%d)" % hi.bit_length())
             term = z3.simplify(term)
-            self.bounds[term.get_id()] = (term, bits)
+            self.bounds[term.get_id()] = (term, hi)
         return term
 
     def toint(self, x):
@@ -238,6 +253,8 @@ class Engine:
 
     def binop(self, op, a, b):
         t = type(op)
+        if type(a).__name__ == "Tok" or type(b).__name__ == "Tok":
+            raise ModelRaise("Desync")  # a NUMBER token consumed as a raw byte: reader and writer disagree on framing
         if not is_sym(a) and not is_sym(b):
             r = self.models.concrete_binop(self, t, a, b)
             if r is not NotImplemented:
@@ -259,46 +276,47 @@ class Engine:
         return self._int_binop(t, a, b)
 
     def _bv_binop(self, t, a, b):
-        ba, bb = self.bits(a), self.bits(b)
+        ha, hb = self.mag(a), self.mag(b)
         A, B = self.lift(a), self.lift(b)
+        allones = (1 << max(ha.bit_length(), hb.bit_length())) - 1
         if t is ast.Add:
-            return self._rec(A + B, max(ba, bb) + 1)
+            return self._rec(A + B, hi=ha + hb)
         if t is ast.Sub:
-            return self._rec(A - B, max(ba, bb) + 1)
+            return self._rec(A - B, hi=ha + hb)
         if t is ast.BitOr:
-            return self._rec(A | B, max(ba, bb))
+            return self._rec(A | B, hi=allones)
         if t is ast.BitXor:
-            return self._rec(A ^ B, max(ba, bb))
+            return self._rec(A ^ B, hi=allones)
         if t is ast.BitAnd:
-            # sound for non-negative operands; a negative concrete mask keeps the other operand's width
+            # sound for non-negative operands; a negative concrete mask keeps the other operand's magnitude
             if not is_sym(a) and a < 0:
-                return self._rec(A & B, bb)
+                return self._rec(A & B, hi=hb)
             if not is_sym(b) and b < 0:
-                return self._rec(A & B, ba)
-            return self._rec(A & B, min(ba, bb))
+                return self._rec(A & B, hi=ha)
+            return self._rec(A & B, hi=min(ha, hb))
         if t is ast.LShift:
             if is_sym(b):
                 raise Unsupported("symbolic shift amount")
-            return self._rec(A << B, ba + b)
+            return self._rec(A << B, hi=ha << b)
         if t is ast.RShift:
             if is_sym(b):
                 raise Unsupported("symbolic shift amount")
-            return self._rec(A >> B, max(ba - b, 0) if b >= 0 else ba)
+            return self._rec(A >> B, hi=ha >> b if b >= 0 else ha)
         if t is ast.Mult:
-            return self._rec(A * B, ba + bb)
+            return self._rec(A * B, hi=ha * hb)
         if t is ast.FloorDiv and not is_sym(b) and b > 0 and (b & (b - 1)) == 0:
-            return self._rec(A >> (b.bit_length() - 1), max(ba - b.bit_length() + 1, 0))
+            return self._rec(A >> (b.bit_length() - 1), hi=ha >> (b.bit_length() - 1))
         if t is ast.Mod and not is_sym(b) and b > 0 and (b & (b - 1)) == 0:
-            return self._rec(A & (b - 1), b.bit_length() - 1)
+            return self._rec(A & (b - 1), hi=b - 1)
         if t is ast.FloorDiv and not is_sym(b) and b > 0:
             # python floor division; operands here are non-negative in every use (guarded by a branch)
             if self.branch(A < 0):
                 raise Unsupported("floor division of a negative BV")
-            return self._rec(z3.UDiv(A, B), ba)
+            return self._rec(z3.UDiv(A, B), hi=ha)
         if t is ast.Mod and not is_sym(b) and b > 0:
             if self.branch(A < 0):
                 raise Unsupported("mod of a negative BV")
-            return self._rec(z3.URem(A, B), b.bit_length())
+            return self._rec(z3.URem(A, B), hi=b - 1)
         raise Unsupported("BV binop %s" % t.__name__)
 
     def _int_binop(self, t, a, b):
@@ -334,6 +352,8 @@ class Engine:
         r = self.models.compare(self, t, a, b)
         if r is not NotImplemented:
             return r
+        if type(a).__name__ == "Tok" or type(b).__name__ == "Tok":
+            raise ModelRaise("Desync")
         if not is_sym(a) and not is_sym(b):
             if t is ast.Is:
                 return a is b
@@ -403,7 +423,7 @@ class Engine:
             B = b if is_sym(b) else z3.BoolVal(bool(b))
             return z3.If(c, A, B)
         r = z3.If(c, self.lift(a), self.lift(b))
-        return self._rec(r, max(self.bits(a), self.bits(b))) if self.intmode == "bv" else r
+        return self._rec(r, hi=max(self.mag(a), self.mag(b))) if self.intmode == "bv" else r
 
     # -------------------------------------------------------------- name lookup
     def global_lookup(self, modname, name):
@@ -431,7 +451,8 @@ class Engine:
             if obj.__name__.startswith("py7zr") and os.path.exists(os.path.join(REPO, obj.__name__.replace(".", "/") + ".py")):
                 self.load(obj.__name__)
             return ModRef(obj)
-        if isinstance(obj, types.FunctionType) and obj.__module__.startswith("py7zr") and "<locals>" not in obj.__qualname__:
+        if isinstance(obj, types.FunctionType) and (obj.__module__.startswith("py7zr") or obj.__module__ in self.modules) \
+                and "<locals>" not in obj.__qualname__:
             m = self.load(obj.__module__)
             parts = obj.__qualname__.split(".")
             if len(parts) == 1 and parts[0] in m["funcs"]:
@@ -441,7 +462,7 @@ class Engine:
                 if r:
                     return r[1]
         if isinstance(obj, type):
-            if obj.__module__.startswith("py7zr"):
+            if obj.__module__.startswith("py7zr") or obj.__module__ in self.modules:
                 try:
                     m = self.load(obj.__module__)
                 except OSError:
